@@ -193,6 +193,8 @@ type pure struct {
 	depth            uint8
 	num              uint32
 	priv             bool
+	il               []byte // for a key made by Child: Il of its derivation (a slice of the mirror's own 64-byte HMAC output)
+	parsed           bool   // made by NewKeyFromString: the four field slices are ranges of one decoded payload
 }
 
 func (p prims) pub(k *pure) []byte {
@@ -218,7 +220,7 @@ func (p prims) fromString(dec []byte) (*pure, int) {
 	if !bytes.Equal(sha256d(dec[:78])[:4], dec[78:]) {
 		return nil, 2
 	}
-	k := &pure{ver: dec[0:4], depth: dec[4], fp: dec[5:9], num: binary.BigEndian.Uint32(dec[9:13]), cc: dec[13:45]}
+	k := &pure{ver: dec[0:4], depth: dec[4], fp: dec[5:9], num: binary.BigEndian.Uint32(dec[9:13]), cc: dec[13:45], parsed: true}
 	if dec[45] == 0 {
 		k.priv = true
 		k.key = dec[46:78]
@@ -270,7 +272,7 @@ func (p prims) child(k *pure, i uint32) (*pure, int) {
 		}
 	}
 	fp := p.hash160(p.pub(k))[:4]
-	return &pure{ver: k.ver, key: ck, cc: ilr[32:], fp: fp, depth: k.depth + 1, num: i, priv: k.priv}, 0
+	return &pure{ver: k.ver, key: ck, cc: ilr[32:], fp: fp, depth: k.depth + 1, num: i, priv: k.priv, il: il}, 0
 }
 func (p prims) neuter(k *pure) (*pure, int) {
 	v, ok := refPrivToPub(k.ver)
@@ -402,6 +404,7 @@ type slot struct {
 	shadow *hdkeychain.ExtendedKey // deep copy taken at creation; nil once the key is zeroed
 	pv     *pure                   // nil once zeroed
 	zcc    int                     // length of the chain code of a zeroed key (for the oracle of ops on zeroed keys)
+	parsed bool                    // created by NewKeyFromString (stays known after the key is zeroed)
 }
 
 type violation struct {
@@ -596,6 +599,7 @@ func (ex *exec) apply(o opRec) {
 	push := func(nk *hdkeychain.ExtendedKey, pv *pure) {
 		ns := &slot{real: nk, pv: pv}
 		if pv != nil {
+			ns.parsed = pv.parsed
 			ns.shadow = deepCopy(nk)
 		}
 		ex.pool = append(ex.pool, ns)
@@ -702,6 +706,17 @@ func (ex *exec) apply(o opRec) {
 			held := [][]byte{kb, pb, cb, fb}
 			names := []string{"key", "pubKey", "chainCode", "parentFP"}
 			before := []string{vh.Hex(kb), vh.Hex(pb), vh.Hex(cb), vh.Hex(fb)}
+			// what this key must not leave behind NEXT TO its buffers: Il of its own derivation.  (Copies of the key
+			// material and of the chain code legitimately sit in neighbouring objects of the same size class: the
+			// cached public key of the parent, the harness's shadow copy -- so only Il, which nobody else holds in a
+			// 32-byte object, can be looked for in the neighbourhood.)
+			var secrets [][]byte
+			var secretNames []string
+			if sl.pv != nil && len(sl.pv.il) >= 16 && !allZero(sl.pv.il) {
+				secrets = append(secrets, sl.pv.il)
+				secretNames = append(secretNames, "Il (the left half of the HMAC output the key was derived with)")
+			}
+			wasParsed := sl.parsed
 			sl.real.Zero()
 			ex.res.zeros++
 			if sl.pv != nil {
@@ -716,6 +731,29 @@ func (ex *exec) apply(o opRec) {
 				for _, x := range b[len(b):cap(b)] {
 					if x != 0 {
 						ex.res.residue++
+					}
+				}
+				// the allocation reading: the memory the buffer lives in.  Behind the slice: its spare capacity must be
+				// zero (key / pubKey / chainCode; not for a parsed key, whose fields are ranges of the decoded payload,
+				// and not for the fingerprint, which is the head of a 20-byte HASH160 of the parent's PUBLIC key).
+				// In front of the slice (same page only, see the hook) and behind it: none of the key's own secrets.
+				if len(b) == 0 {
+					continue
+				}
+				ar := hdkeychain.VerifAroundOf(b, 64)
+				if bi < 3 && !wasParsed && !allZero(ar.After) {
+					setViol(&violation{"C15:zero", "after Zero the allocation that held the " + names[bi] + " still contains non-zero bytes behind the slice (spare capacity)",
+						map[string]interface{}{"after_step": ex.step, "key": fmt.Sprintf("k%d", k), "buffer": names[bi], "spare_capacity_after": vh.Hex(ar.After)}})
+				}
+				for si, sec := range secrets {
+					if bytes.Contains(ar.Before, sec) || bytes.Contains(ar.After, sec) {
+						where := "in front of"
+						if bytes.Contains(ar.After, sec) {
+							where = "behind"
+						}
+						setViol(&violation{"C15:zero", "after Zero the memory directly " + where + " the zeroed " + names[bi] + " (same allocation) still holds the key's " + secretNames[si],
+							map[string]interface{}{"after_step": ex.step, "key": fmt.Sprintf("k%d", k), "buffer": names[bi], "left_behind": secretNames[si],
+								"bytes_in_front": vh.Hex(ar.Before), "bytes_behind": vh.Hex(ar.After)}})
 					}
 				}
 			}
@@ -915,6 +953,22 @@ func genCreator(r *vh.RNG) opRec {
 		if r.Bool() {
 			k, _ = k.Neuter()
 		}
+		if r.Intn(5) == 0 {
+			// a well-formed string (checksum recomputed) whose version bytes belong to the OTHER class than its key
+			// data: an xprv version in front of a public key, or an xpub version in front of 00 || scalar.  The parser
+			// does not interpret the version; SetNet must still give such a key the version of its own class.
+			d := base58.Decode(k.String())
+			if len(d) == 82 {
+				n := savedIDs[r.Intn(len(nets))]
+				if d[45] == 0 {
+					copy(d[:4], n.pub[:])
+				} else {
+					copy(d[:4], n.priv[:])
+				}
+				copy(d[78:], sha256d(d[:78])[:4])
+				return opRec{Kind: "FromString", Str: base58.Encode(d)}
+			}
+		}
 		return opRec{Kind: "FromString", Str: k.String()}
 	default:
 		priv := r.Bool()
@@ -926,8 +980,15 @@ func genCreator(r *vh.RNG) opRec {
 			key = compress(x, y)
 			ver = savedIDs[net].pub[:]
 		}
-		if r.Intn(8) == 0 {
+		switch r.Intn(8) {
+		case 0:
 			ver = r.Bytes(4) // unregistered version: Neuter fails
+		case 1, 2: // registered version of the OTHER class (private key under an xpub version and vice versa)
+			if priv {
+				ver = savedIDs[net].pub[:]
+			} else {
+				ver = savedIDs[net].priv[:]
+			}
 		}
 		depth := uint8(r.Intn(4))
 		if r.Intn(10) == 0 {
@@ -972,6 +1033,18 @@ func genHistory(r *vh.RNG, steps, maxPool int, withOracle bool, deep bool) ([]op
 				o = opRec{Kind: "Zero", K: k}
 			case x < 64:
 				o = opRec{Kind: "SetNet", K: k, Net: r.Intn(len(nets))}
+				if r.Intn(3) == 0 { // the network (one of the networks) the key's version bytes already belong to, either class
+					ver := e.pool[k].real.VerifVersion()
+					var own []int
+					for ni := range nets {
+						if bytes.Equal(ver, savedIDs[ni].priv[:]) || bytes.Equal(ver, savedIDs[ni].pub[:]) {
+							own = append(own, ni)
+						}
+					}
+					if len(own) > 0 {
+						o.Net = own[r.Intn(len(own))]
+					}
+				}
 			case x < 69:
 				o = opRec{Kind: "String", K: k}
 			case x < 77:
@@ -1054,6 +1127,72 @@ func toInt(x interface{}) int {
 	return 0
 }
 
+// leadingZeroChildren scans, with the mirror's arithmetic only (HMAC-SHA512 and a big-integer addition), the children
+// of the master key of a fixed seed for private keys with at least `zeros` leading zero bytes: one hardened and one
+// normal index.  (Two zero bytes: about 65 000 tries each.)
+func leadingZeroChildren(seed []byte, zeros int, maxTries int) (idx []uint32) {
+	P := prims{}
+	m, e := P.master(seed, 0)
+	if e != 0 {
+		return nil
+	}
+	pub := P.pub(m)
+	for _, hard := range []bool{true, false} {
+		for t := 0; t < maxTries; t++ {
+			i := uint32(t)
+			keyish := pub
+			if hard {
+				i |= hdkeychain.HardenedKeyStart
+				keyish = m.key
+			}
+			h := hmac.New(sha512.New, m.cc)
+			h.Write(childData(hard, keyish, i))
+			il := h.Sum(nil)[:32]
+			v := new(big.Int).SetBytes(il)
+			if v.Sign() == 0 || v.Cmp(curveN) >= 0 {
+				continue
+			}
+			v.Add(v, new(big.Int).SetBytes(m.key)).Mod(v, curveN)
+			if v.Sign() != 0 && v.BitLen() <= 256-8*zeros {
+				idx = append(idx, i)
+				break
+			}
+		}
+	}
+	return idx
+}
+
+// leadingZeroHistories: derive a child whose private key has leading zero bytes, then use THAT object: hardened and
+// normal grandchildren, its string parsed back and derived from as well, Neuter, Zero of relatives.
+func leadingZeroHistories(quick bool) [][]opRec {
+	var hs [][]opRec
+	H := uint32(hdkeychain.HardenedKeyStart)
+	for si, seedHex := range []string{"000102030405060708090a0b0c0d0e0f", "4c6561642d7a65726f2d6368696c6472656e2d6f662d433135"} {
+		seed := unhex(seedHex)
+		for _, zeros := range []int{1, 2} {
+			if zeros == 2 && quick && si > 0 {
+				continue
+			}
+			for _, i := range leadingZeroChildren(seed, zeros, 400000) {
+				var str string
+				if m, err := hdkeychain.NewMaster(seed, nets[0]); err == nil {
+					if c, err := m.Child(i); err == nil {
+						str = c.String()
+					}
+				}
+				h := []opRec{{Kind: "NewMaster", Seed: seedHex}, {Kind: "Child", K: 0, I: i}, {Kind: "Child", K: 1, I: H + 5}, {Kind: "Child", K: 1, I: 7},
+					{Kind: "String", K: 1}, {Kind: "Neuter", K: 1}, {Kind: "Child", K: 4, I: 7}}
+				if str != "" {
+					h = append(h, opRec{Kind: "FromString", Str: str}, opRec{Kind: "Child", K: 6, I: H + 5}, opRec{Kind: "Child", K: 6, I: 7})
+				}
+				h = append(h, opRec{Kind: "Zero", K: 0}, opRec{Kind: "Child", K: 1, I: H}, opRec{Kind: "Zero", K: 1}, opRec{Kind: "String", K: 2})
+				hs = append(hs, h)
+			}
+		}
+	}
+	return hs
+}
+
 func fixedHistories() [][]opRec {
 	seed := "000102030405060708090a0b0c0d0e0f"
 	xprv := "xprv9s21ZrQH143K3QTDL4LXw2F7HEK3wJUD2nW2nRk4stbPy6cq3jPPqjiChkVvvNKmPGJxWUtg6LnF5kejMRNNU3TGtRBeJgk33yuGBxrMPHi"
@@ -1113,6 +1252,13 @@ func main() {
 	// every fixed history twice: with the deep observation after every step (ECPubKey / Address / Child probes, which
 	// memoise the public key of every private key) and with the shallow one (String / IsPrivate / Depth / ParentFingerprint
 	// only), so that keys WITHOUT a cached public key are neutered, zeroed, derived from as well (review round 2)
+	// children whose private key has one / two leading zero bytes (found by a scan), used as parents
+	lz := leadingZeroHistories(!cfg.Thorough() && !cfg.Search)
+	rep.Extra["leading_zero_child_histories"] = len(lz)
+	for hi, h := range lz {
+		runAndRecord(h, "leading_zero_child", !cfg.Search && hi < 2, true)
+		runAndRecord(h, "leading_zero_child_shallow", false, false)
+	}
 	for _, h := range fixedHistories() {
 		runAndRecord(h, "fixed", !cfg.Search, true)
 		runAndRecord(h, "fixed_shallow", false, false)
